@@ -24,8 +24,10 @@ pub mod c01;
 pub mod c02;
 pub mod c03;
 pub mod c04;
+pub mod c05;
 pub mod c06;
 pub mod c07;
+pub mod c08;
 pub mod c09;
 pub mod c10;
 pub mod c11;
@@ -120,8 +122,10 @@ pub fn select(property: &str, tier: Tier, seed: u64) -> Vec<Case> {
         "C02" => c02::cases(tier, seed),
         "C03" => c03::cases(tier, seed),
         "C04" => c04::cases(tier, seed),
+        "C05" => c05::cases(tier, seed),
         "C06" => c06::cases(tier, seed),
         "C07" => c07::cases(tier, seed),
+        "C08" => c08::cases(tier, seed),
         "C09" => c09::cases(tier, seed),
         "C10" => c10::cases(tier, seed),
         "C11" => c11::cases(tier, seed),
@@ -135,4 +139,4 @@ pub fn select(property: &str, tier: Tier, seed: u64) -> Vec<Case> {
     }
 }
 
-pub const PROPERTIES: &[&str] = &["C02"];
+pub const PROPERTIES: &[&str] = &["C01", "C02", "C03", "C04", "C05", "C06", "C07", "C08", "C09", "C10", "C11", "C12", "C13", "C14", "C15", "C16", "C17"];
